@@ -9,6 +9,8 @@ ENGINES = [
      "kind_free_text": "in-process simulation of the server side: real db/acl/audit/server/client code, scripted tailnet identity, fault-injecting audit sink, in-process HTTP transport with request corruption, clean restarts; every choice from one seeded tape"},
     {"name": "storeworld", "path": "sim/storeworld", "serves_properties": ["C10", "C11", "C12", "C13", "C15", "C16", "C19"],
      "kind_free_text": "in-process simulation of the client side inside a testing/synctest bubble: real Store/Updater/watcher/caches/FileClient, scripted StoreClient with per-(name,request) fault scripts, recording fault-injecting cache, PollTicker/TimeNow seams, baton scheduler at every mutex acquisition and service request"},
+    {"name": "backupworld", "path": "sim/backupworld", "serves_properties": ["C17"],
+     "kind_free_text": "real periodicBackup/doBackup + real db + real aws-sdk s3 client inside a synctest bubble; HTTPClient is an in-memory bucket that records, fails and stalls"},
     {"name": "kernel", "path": "sim/kernel", "serves_properties": [],
      "kind_free_text": "tape (single PRNG), baton scheduler over park points inside a testing/synctest bubble (virtual clock), canonical event log, delta-debugging shrinker"},
 ]
@@ -60,6 +62,9 @@ CLAIMS = {
     "C15": dict(engine="storeworld", design_ref="5/C15", technique=SIMV,
                 text="Updaters over watched secrets with tape-chosen interleavings of installs, Gets and registrations: a Get that begins after an install of a different version completed must rebuild (no lost update); a rebuild is allowed only if an install landed since the previous Get began; the bytes handed to the builder must be the newest installed before the Get or newer; builder failure keeps the old value and sets Err; each replaced closer is closed exactly once, the current one never.",
                 note="overlapping Gets on one updater are judged by the weak invariants only"),
+    "C17": dict(engine="backupworld", design_ref="5/C17", technique="deterministic simulation: virtual clock, baton scheduler at database-lock and upload park points, in-memory S3 endpoint with scripted faults",
+                text="The unexported loop is run through the add-only hook with the real aws-sdk client. Oracles over the bucket's record: every body is byte-identical to a complete database file recorded after some step; first upload at start-up; an upload after a successful one only if the file changed since that one began; attempts >= 60 s apart; three minutes after the last write and fault the newest successful object equals the current file; the loop task may pass at most 64 park points per virtual instant and take the database lock at most 400 times per idle hour (busy-loop detection without a watchdog); after cancellation it exits within 1 s of virtual time.",
+                note="S3 is an in-memory http client; makeS3Client / ambient credentials are outside the world"),
     "C19": dict(engine="storeworld", design_ref="5/C19", technique=SIMV + "; restart as a generated operation",
                 text="Whenever a name disappears from the cache document it must be undeclared, an expiry age must be set, the store clock minus the model's last access must exceed the age (1 s slack), no handle or watcher may have been handed out by this process, and the write must happen inside a poll; every document written after a read must carry lastAccess >= that read's second; restarts re-apply the rule with the persisted stamps.",
                 note="the converse (eligible implies dropped) is not claimed, only counted as a reach probe"),
